@@ -4,7 +4,7 @@ import vlib, mirrorcheck
 META = {
     "level": "model_checking",
     "text": "TLC checks on Mirror.tla that the committed-header store is never overwritten (action property), has no gaps, is hash-linked, that voting = committing + 1 and that the stored and in-memory voting position never moves backwards, over bounded histories with late/duplicate/conflicting certificates, replayed headers with wrong predecessors and a crash after every individual store write followed by restart; the generated behaviours (crash points included) are replayed on a real Mirror over recording stores and the same predicates are evaluated on the real stores and views after every step (every SaveCommittedHeader call is logged, so an overwrite is seen even if reverted). Generation additionally: exhaustive state cover of the focused rounds world and the concurrent-caller driver (MirrorConcMC.tla: two Handle*Proofs calls parked between their two phases in every interleaving, a caller giving up while the kernel works on its request) replayed with the verifGate hook; the repository's own tests run under the invariant monitor (position monotone, voting = committing+1).",
-    "note": "Bounded as C01; crash = stores truncated to the first k writes of the step and a new Mirror started on them. Trusted: TLC, harness oracle, tmmemstore.",
+    "note": "World focus_chain (two-edge cover: every reachable (state, event, event) triple): a header of the NEXT height arriving while the node still votes on the height before it (commit backfilled from its previous-commit proof, then the handler starts over), extending the committed block or naming another predecessor. Bounded as C01; crash = stores truncated to the first k writes of the step and a new Mirror started on them. Trusted: TLC, harness oracle, tmmemstore.",
     "technique": "TLA+ spec (Mirror.tla) + TLC exhaustive bounded check incl. crash points + replay on the real Mirror with real-state predicate evaluation",
 }
 
